@@ -296,6 +296,16 @@ def run(P, R, tier):
     R.floor("OPT optional-factor selections", n_opt, 6)
     from ..engines import traps as _traps
     _traps.check(P, R, ['factor_analysis'], scope='factor_analysis:(FactorAnalysisBase\\.(_compute_\\w+|_latent_\\w+|compute_latent_x|update_[xyzUVD]|compute_accumulators_[UVD]|_get_statistics_by_class_id|_sum_[nf]_statistics|initialize\\w*)|JFAMachine\\.(e_step_\\w|m_step_\\w|finalize_\\w|fit)|reduce_iadd)')
+    from ..engines import proto as _pacc
+    n_acc_ = 0
+    for nm_ in ("_sum_n_statistics", "_sum_f_statistics", "compute_accumulators_U", "compute_accumulators_V", "compute_accumulators_D"):
+        n_acc_ += _pacc.check_accumulation_signs(P, R, "factor_analysis:FactorAnalysisBase." + nm_)
+    R.floor("ACC.sum in-place accumulations", n_acc_, 4)
+    # mult_along_axis multiplies
+    _mf = P.func("factor_analysis:mult_along_axis")
+    _mp = pol.Pol(P, _mf, track_inv=True)
+    _inv = sorted({x for s_, a in _mp.value_terms() for x in a if x.startswith("1/")})
+    R.check(not _inv, "POL.mult-along-axis", _mf.key, "mult_along_axis(A, B, axis) returns A * B broadcast along the axis", "", f"{_inv[:2]} divide(s) in mult_along_axis")
 
 
 EXPLANATION += ' Also: (ACC.sum) accumulators are summed over classes / sessions; (POL.acc-placement) every factor of A1 / A2 multiplies; (OPT); (IDX.class-select); (COVER.reduce_iadd / COVER.pairs) per-class accumulators are folded whole; (DTYPE.raw).'
